@@ -225,7 +225,7 @@ func (i *BigInt) CompareFloat(other Float) Value {
 	if other.IsNaN() {
 		return Nil
 	}
-	return SmallInt(i.ToFloat().Cmp(other)).ToValue()
+	return SmallInt(CmpBigIntFloat64(i.ToGoBigInt(), float64(other))).ToValue()
 }
 
 // AddVal another value and return an error
@@ -647,7 +647,7 @@ func (i *BigInt) GreaterThanSmallInt(other SmallInt) bool {
 }
 
 func (i *BigInt) GreaterThanFloat(other Float) bool {
-	return i.ToFloat() > other
+	return !other.IsNaN() && CmpBigIntFloat64(i.ToGoBigInt(), float64(other)) > 0
 }
 
 func (i *BigInt) GreaterThanBigInt(other *BigInt) bool {
@@ -706,7 +706,7 @@ func (i *BigInt) GreaterThanEqualSmallInt(other SmallInt) bool {
 }
 
 func (i *BigInt) GreaterThanEqualFloat(other Float) bool {
-	return i.ToFloat() >= other
+	return !other.IsNaN() && CmpBigIntFloat64(i.ToGoBigInt(), float64(other)) >= 0
 }
 
 func (i *BigInt) GreaterThanEqualBigInt(other *BigInt) bool {
@@ -765,7 +765,7 @@ func (i *BigInt) LessThanSmallInt(other SmallInt) bool {
 }
 
 func (i *BigInt) LessThanFloat(other Float) bool {
-	return i.ToFloat() < other
+	return !other.IsNaN() && CmpBigIntFloat64(i.ToGoBigInt(), float64(other)) < 0
 }
 
 func (i *BigInt) LessThanBigInt(other *BigInt) bool {
@@ -810,7 +810,7 @@ func (i *BigInt) LessThanEqual(other Value) (bool, Value) {
 		oBigInt := NewBigInt(int64(other.AsSmallInt()))
 		return i.Cmp(oBigInt) <= 0, Undefined
 	case FLOAT_FLAG:
-		return i.ToFloat() <= other.AsFloat(), Undefined
+		return i.LessThanEqualFloat(other.AsFloat()), Undefined
 	default:
 		return false, Ref(NewCoerceError(i.Class(), other.Class()))
 	}
@@ -829,7 +829,7 @@ func (i *BigInt) LessThanEqualSmallInt(other SmallInt) bool {
 }
 
 func (i *BigInt) LessThanEqualFloat(other Float) bool {
-	return i.ToFloat() <= other
+	return !other.IsNaN() && CmpBigIntFloat64(i.ToGoBigInt(), float64(other)) <= 0
 }
 
 func (i *BigInt) LessThanEqualBigInt(other *BigInt) bool {
